@@ -40,12 +40,14 @@ func newBufferPool() *bufferPool {
 
 func (b *bufferPool) Get() *bytes.Buffer {
 	if buf, ok := b.Pool.Get().(*bytes.Buffer); ok {
+		verifPoolGet(b, buf)
 		return buf
 	}
 	return bytes.NewBuffer(make([]byte, 0, initialBufferSize))
 }
 
 func (b *bufferPool) Put(buffer *bytes.Buffer) {
+	verifPoolPut(b, buffer)
 	if buffer.Cap() > maxRecycleBufferSize {
 		return
 	}
